@@ -316,6 +316,7 @@ func CheckC03(e *Env) int {
 	progs := genPool(e, "f", e.tierN(120, 1500), stressTweak)
 	progs = append(progs, cleanupChains(e)...)
 	progs = append(progs, sameNameCleanupFamily()...)
+	progs = append(progs, namedResultsFamily()...)
 	progs = append(progs, errNameProgs(e)...)
 	progs = append(progs, cleanupSignatureProduct(e)...)
 	// the zero value returned on failure, for every kind of result type, declared in the
@@ -341,6 +342,7 @@ func CheckC04(e *Env) int {
 	progs := genPool(e, "u", e.tierN(120, 1500), stressTweak)
 	progs = append(progs, cleanupChains(e)...)
 	progs = append(progs, sameNameCleanupFamily()...)
+	progs = append(progs, namedResultsFamily()...)
 	progs = append(progs, cleanupSignatureProduct(e)...)
 	results := RunPool(e, progs, PoolOpts{Execute: true, Name: "c04"})
 	for _, pr := range results {
